@@ -251,6 +251,9 @@ func (c *connectClient) NewConn(
 	spec Spec,
 	header http.Header,
 ) StreamingClientConn {
+	// The header map may be the caller's own, from a Request that was sent
+	// before: the timeout of that call says nothing about this one.
+	delete(header, connectHeaderTimeout)
 	if deadline, ok := ctx.Deadline(); ok {
 		millis := int64(time.Until(deadline) / time.Millisecond)
 		if millis > 0 {
